@@ -178,7 +178,6 @@ func checkC20(c CaseC20, info *Info) *Failure {
 		mxj.CastNanInf(true)
 		info.Class("CastNanInf in force")
 	}
-	bystanders()
 	doc := []byte(c.Doc.String())
 	dpath := strings.Join(c.DPath, ".")
 	vpath := pathString(c.Steps)
@@ -190,6 +189,8 @@ func checkC20(c CaseC20, info *Info) *Failure {
 	if err != nil {
 		return failf("decode-error", "%v", err)
 	}
+	// (no bystanders here: the oracle of this check is the core itself, and a bystander wrapper call that disturbs an
+	// option would disturb reference and subject alike - C18 watches the option state around every non-setter)
 	// A wrapper that returns JSON text and takes no safe-encoding flag may spell it like Map.Json() or like
 	// Map.Json(true) - both are "the documented composition of core functions" (leniency 17); the whole text must be
 	// one of the two.
